@@ -94,7 +94,7 @@ fn size_method(ctx: &Context, input: &DeriveInput) -> TokenStream {
     quote! {
         fn size(&self) -> usize {
             use ::flatty::{traits::*, utils::ceil_mul};
-            ceil_mul(#value, Self::ALIGN)
+            ceil_mul(#value, <Self as ::flatty::traits::FlatBase>::ALIGN)
         }
     }
 }
